@@ -33,7 +33,8 @@ def run(cx):
         for c in co.calls_to(("governor::state::keyed::future::until_key_ready", "governor::state::keyed::check_key")):
             n += 1
             k = strip_identity(arg_origin(c, 1, o))
-            ok = k[0] == "field" and k[1][0] == "variant" and k[1][2] == "Continue" and term_has_call(k, "anemo::types::request::Request::peer_id") and mentions_upvar(k, "req")
+            kr = payload_root(k)
+            ok = kr[0] == "call" and name_matches(kr[1], "anemo::types::request::Request::peer_id") and mentions_upvar(kr, "req") and kr is not k
             ob.require(ok, f"key/{c.fn.split('::')[-1]}", f"{c.fn.split('::')[-1]} key is {show(k)[:100]}", co.path, co.loc(c.bb))
             ob.require(mentions_upvar(arg_origin(c, 0, o), "limiter"), f"limiter/{c.fn.split('::')[-1]}", f"limiter is {show(arg_origin(c, 0, o))}", co.path)
         ob.floor(n, 2, "limiter check sites", exact=True)
@@ -77,6 +78,8 @@ def run(cx):
                 return f"await(?{aw})"
             if name_matches(c.fn, "anemo::types::request::Request::peer_id"):
                 return "sender?"
+            if name_matches(c.fn, "anemo::rpc::Status::internal"):
+                return "internal"
             if name_matches(c.fn, "governor::state::keyed::future::until_key_ready"):
                 return "until_ready"
             if name_matches(c.fn, "governor::state::keyed::check_key"):
@@ -118,12 +121,14 @@ def run(cx):
                             v = strip_identity(pieces[0][1])
                             ok = v[0] == "call" and name_matches(v[1], "Duration::as_nanos") and term_has_call(v, "NotUntil::wait_time_from") and term_has_call(v, "Clock::now") \
                                 and mentions_upvar(v, "clock") and any(x[0] == "variant" and x[2] == "Err" and term_has_call(x, "check_key") for x in walk(v))
+                    if not ok and e[0] == "call" and name_matches(e[1], "anemo::rpc::Status::internal"):
+                        return None         # the missing-sender arm written out (`None => return Err(Status::internal(..))`): an error exit
                     return "ret=Err(TooManyRequests+wait-nanos)" if ok else "ret=Err(?)"
                 return "ret=?"
             return None
         ws = {fmt_word(w) for w in seq_words(co, call_sym, stmt_sym, extra)}
         want = {
-            "sender? !err <return>",
+            "sender? internal !err <return>",
             "sender? mode=Block until_ready await(until_ready) inner.call(req) await(inner) ret=inner-result <return>",
             "sender? mode=ReturnError check check=Err ret=Err(TooManyRequests+wait-nanos) <return>",
             "sender? mode=ReturnError check check=Ok inner.call(req) await(inner) ret=inner-result <return>",
@@ -137,11 +142,7 @@ def run(cx):
             ob.matched += len(ws)
         ob.set_sample({"body": co.path, "words": sorted(ws)})
         o = Origins(co)
-        oe = [c for c in co.calls_to("Option::ok_or_else") if term_has_call(o.of_operand(c.args[0]), "Request::peer_id")]
-        ob.floor(oe, 1, "ok_or_else on the sender", exact=True)
-        cl = o.of_operand(oe[0].args[1])
-        kb = prog.body(cl[2]) if cl[0] == "agg" else None
-        ok = kb is not None and strip_identity(Origins(kb).of_local(0))[0] == "call" and name_matches(strip_identity(Origins(kb).of_local(0))[1], "anemo::rpc::Status::internal")
-        ob.require(ok, "missing-sender/internal", "a missing sender is not answered with Status::internal", co.path)
+        # (a missing sender is answered with Status::internal: the `internal` event of the first word above, whether the arm is
+        #  an ok_or_else closure or a written-out `None => return Err(..)`)
         hb = cx.body(f"{M}::WAIT_NANOS_HEADER")
         ob.require(const_of(Origins(hb).of_local(0)) == '"wait-nanos"', "header-const", "WAIT_NANOS_HEADER != \"wait-nanos\"", hb.path)
